@@ -146,8 +146,13 @@ pub const ADV_PINNED_CASES: u64 = 200_000;
 pub const ADV_PINNED_SEED: u64 = 0xAD5E_ED01;
 
 /// (maintenance) evaluates the pinned corpus on the current tree and prints the digests of all failing cases
-pub fn list_adv_failures() -> i32 {
-    use crate::props::robust::{adv_lattice_strategy, adv_replay, eval_adv_c01, Adv};
+pub fn list_adv_failures(prop: &str) -> i32 {
+    use crate::props::robust::{adv_lattice_strategy, adv_replay, eval_adv_prop, Adv};
+    let prop: &'static str = match prop {
+        "C02" => "C02",
+        "C05" => "C05",
+        _ => "C01",
+    };
     let collected: std::sync::Mutex<Vec<u64>> = std::sync::Mutex::new(Vec::new());
     let mut stats = Stats::default();
     let mut violations = Vec::new();
@@ -156,16 +161,17 @@ pub fn list_adv_failures() -> i32 {
             name: "adversarial-pinned",
             cases: ADV_PINNED_CASES,
             strategy: Box::new(adv_lattice_strategy),
-            eval: Box::new(|d: &Adv, s: bool| eval_adv_c01(d, s, Some(&collected))),
+            eval: Box::new(|d: &Adv, s: bool| eval_adv_prop(d, prop, s, Some(&collected))),
             replay: Box::new(|d: &Adv, _f: &Failure| adv_replay(d)),
         };
-        run_plans("C01", ADV_PINNED_SEED, &[plan], &mut stats, &mut violations);
+        run_plans(prop, ADV_PINNED_SEED, &[plan], &mut stats, &mut violations);
     }
     let mut v = collected.into_inner().unwrap();
     v.sort();
     v.dedup();
     let out = json!({
-        "what": "K5: digests (case_digest of the operand pair) of the inputs of C01's pinned adversarial corpus on which the tree at the time of recording returns a wrong region for some operation or panics with a recorded signature (K1/K2). Inexact-and-degenerate inputs: same root cause as K1-K4. Regenerate only with `verif list-adv-failures` after a triage.",
+        "oracle": prop,
+        "what": "K5: digests (case_digest of the operand pair) of the inputs of the pinned adversarial corpus on which the tree at the time of recording fails the oracle of the property named in `oracle` for some operation (C01: wrong region; C02: invalid polygon structure; C05: mutually inconsistent results) or panics with a recorded signature (K1/K2). Inexact-and-degenerate inputs: same root cause as K1-K4. Regenerate only with `verif list-adv-failures <C01|C02|C05>` after a triage.",
         "corpus": {"cases": ADV_PINNED_CASES, "seed": ADV_PINNED_SEED, "evaluated": stats.evaluations},
         "digests": v.iter().map(|d| format!("{:016x}", d)).collect::<Vec<_>>(),
     });
@@ -267,21 +273,26 @@ pub fn run_generic(id: &str, tier: Tier) -> i32 {
             run_plans("C15", seed, &[plan3], &mut out.stats, &mut out.violations);
         }
     }
-    if id == "C01" && out.violations.is_empty() {
+    if (id == "C01" || id == "C02" || id == "C05") && out.violations.is_empty() {
         // pinned adversarial corpus (fixed seed, independent of VERIF_SEED): the inexact-and-degenerate region as a
         // regression net; the cases the unchanged tree is known to get wrong are listed by digest and not reported
-        use crate::props::robust::{adv_known_digests, adv_lattice_strategy, adv_replay, eval_adv_c01, Adv};
+        use crate::props::robust::{adv_known_digests_for, adv_lattice_strategy, adv_replay, eval_adv_prop, Adv};
+        let prop: &'static str = match id {
+            "C02" => "C02",
+            "C05" => "C05",
+            _ => "C01",
+        };
         let plan = Plan::<Adv> {
             name: "adversarial-pinned",
             cases: ADV_PINNED_CASES,
             strategy: Box::new(adv_lattice_strategy),
-            eval: Box::new(|d: &Adv, s: bool| eval_adv_c01(d, s, None)),
+            eval: Box::new(move |d: &Adv, s: bool| eval_adv_prop(d, prop, s, None)),
             replay: Box::new(|d: &Adv, _f: &Failure| adv_replay(d)),
         };
-        run_plans("C01", ADV_PINNED_SEED, &[plan], &mut out.stats, &mut out.violations);
+        run_plans(prop, ADV_PINNED_SEED, &[plan], &mut out.stats, &mut out.violations);
         let hits = out.stats.counters.get("known_adversarial_corpus_failures").cloned().unwrap_or(0);
         if hits > 0 {
-            out.known_lines.push(format!("K5 wrong region (or recorded panic K1/K2) on {} of the {} inputs of the pinned adversarial corpus (small-lattice polygons with arbitrary slopes; seed {}); their digests are listed in corpus/known/adv_c01_digests.json ({} listed)", hits, ADV_PINNED_CASES, ADV_PINNED_SEED, adv_known_digests().len()));
+            out.known_lines.push(format!("K5 {} on {} of the {} inputs of the pinned adversarial corpus (small-lattice polygons with arbitrary slopes; seed {}); their digests are listed in corpus/known/adv_{}_digests.json ({} listed)", match prop { "C02" => "invalid polygon structure (or recorded panic K1/K2)", "C05" => "mutually inconsistent results (or recorded panic K1/K2)", _ => "wrong region (or recorded panic K1/K2)" }, hits, ADV_PINNED_CASES, ADV_PINNED_SEED, prop.to_lowercase(), adv_known_digests_for(prop).len()));
         }
     }
     if id == "C12" && out.violations.is_empty() {
